@@ -670,6 +670,7 @@ func init() {
 				c06Compare(x, doc, "deep-nesting")
 			})
 			c.Inputs(spRawTag, c.Pick(6, 7), c06RawDriver)
+			c.Inputs(spRawAttr, c.Pick(6, 7), c06RawDriver)
 			c.Inputs(spRawDecl, c.Pick(5, 6), c06RawDriver)
 			nl := c.Pick(3, 4)
 			c.Explore("code-content", fmt.Sprintf("fenced (with/without info string) and indented code blocks with every sequence of <=%d content lines from a %d-line menu of fence-like, indented, blank and marker-like lines, in each context, x spelling deviations <=%d (fence character, fence length, longer closing fence)", nl, len(codeLineMenu), dev), dev, nl, func(x *X) {
